@@ -691,7 +691,8 @@ func main() {
 		"random topologies (1-2 ISDs, 1-3 core ASes, 2-6 non-core ASes with 1-2 parents, parallel links, 0-3 peering " +
 		"links, 1-3 border routers per AS, random interface ids), beaconed by the real DefaultExtender (random propagation " +
 		"choices), all (src,dst) pairs through the real Combine; every returned path is sent hop by hop through the real " +
-		"routers; distinct = (path shape, interface sequence, routers, injected fault/tampered bit); model lines = distinct " +
+		"routers (C10: traceroute requests at every position also with HBH, E2E+SPAO and HBH+E2E extension headers, " +
+		"offending packets of SCMP errors also with a random extension variant); distinct = (path shape, interface sequence, routers, injected fault/tampered bit); model lines = distinct " +
 		"router invocations / slow-path replies / reversals"
 	prop := e.Prop
 	nWorlds := map[string]int{"C02": e.N(45, 400), "C22": e.N(18, 150), "C03": e.N(30, 200), "C04": e.N(7, 12),
